@@ -1149,7 +1149,20 @@ def pat_inv_array_of_functions(tokens, info):
     n = len(tokens)
     for i in range(n - 2):
         if tokens[i] == ']' and tokens[i + 1] == ')' and tokens[i + 2] == '(':
-            return True
+            # '(' name? ('[' N? ']')+ ')' '('   -- no '*' inside: not an array of pointers
+            k = i
+            while k >= 0 and tokens[k] == ']':
+                k -= 1
+                if k >= 0 and tokens[k] != '[':
+                    k -= 1
+                if k < 0 or tokens[k] != '[':
+                    k = -2
+                    break
+                k -= 1
+            if k >= 0 and is_ident(tokens[k]) and not is_type_name(tokens[k], info):
+                k -= 1
+            if k >= 0 and tokens[k] == '(':
+                return True
     for i, t in enumerate(tokens):
         if t in info.typedefs and category(['td', t], info) == 'func':
             k = i + 1
